@@ -12,6 +12,10 @@ PQ == { <<"/", "a">>, <<"/", "a", "/", "b">>, <<"/", "a", "/", "LOW">>, <<"/", "
         <<"/", "A", "/", "LOW">>, <<"/", "A", "/", "b">>, <<"/", "a", "/", "CLS", "/", "b">> }
 PUp == P12 \cup PCls \cup { <<"/", "A", "/", "LOW">>, <<"/", "A", "/", "b">>, <<"/", "A", "LOW">> }
 
+\* non-ASCII text in the shared prefix, as a literal and inside a group (character count # byte count)
+PNa == { <<"/", "~e~", "/", "a">>, <<"/", "~e~", "/", "b">>, <<"/", "~e~", "/", "LOW">>, <<"/", "ELW", "/", "a">>, <<"/", "ELW", "/", "b">>, <<"/", "a">> }
+ProbesNa == { <<>>, <<"/", "~e~", "/", "a">>, <<"/", "~e~", "/", "b">>, <<"/", "~e~", "/", "a", "b">>, <<"/", "~e~", "/">>, <<"/", "~e~", "a", "/", "a">>,
+              <<"/", "~e~", "b", "a", "/", "b">>, <<"/", "a">>, <<"/", "~e~", "/", "A">>, <<"/", "e", "/", "a">>, <<"/", "~e~", "a", "/", "a", "/">> }
 RECURSIVE Strs(_,_)
 Strs(n, A) == IF n = 0 THEN {<<>>} ELSE LET S == Strs(n - 1, A) IN S \cup {Append(s, c) : s \in {x \in S : Len(x) = n - 1}, c \in A}
 H4 == Strs(4, {"a", "b", "/", "."})
@@ -25,6 +29,6 @@ OpJson(o) == [op |-> o.op, p |-> o.p, pat |-> PatStr(o.p), id |-> o.id, ver |-> 
 Emit == nops = MaxOps => PrintT(<<"REPLAY", ToJson([ic |-> ic, ops |-> [i \in 1..Len(hist) |-> OpJson(hist[i])]])>>)
 \* printed once: the probe strings and the pattern table the harness needs
 RxCases == PrintT(<<"RXCASES", ToJson(SetToSeq({[ic |-> i, p |-> p, pat |-> PatStr(p)] : p \in Patterns, i \in IgnoreCase}))>>)
-Universe == PrintT(<<"UNIVERSE", ToJson([probes |-> SetToSeq(ProbeSet), pats |-> SetToSeq({<<p, PatStr(p)>> : p \in Patterns})])>>)
+Universe == PrintT(<<"UNIVERSE", ToJson([probes |-> SetToSeq(Haystacks), pats |-> SetToSeq({<<p, PatStr(p)>> : p \in Patterns})])>>)
 ASSUME Universe /\ RxCases
 =============================================================================
